@@ -1245,6 +1245,23 @@ func (ec *evalCtx) evalCall(x *ast.CallExpr) (Value, types.Type) {
 			ec.fail("typeis: cannot resolve type %s", types.ExprString(x.Args[1]))
 		}
 		return Value{C: []Term{sEq(v.C[0], sInt(int64(vc.eng.typeId(tv.Type))))}}, tBool
+	case "as":
+		// as(x, *T): the pointer held in interface value x, read at type *T (what x.(*T) yields
+		// when it succeeds; meaningful only under typeis(x, *T))
+		v, t := arg(0)
+		if _, ok := t.Underlying().(*types.Interface); !ok || len(x.Args) != 2 {
+			ec.fail("as(x, *T) of an interface value")
+		}
+		tv, err := types.Eval(vc.eng.fset, ec.pkg, token.NoPos, types.ExprString(x.Args[1]))
+		if err != nil || tv.Type == nil {
+			ec.fail("as: cannot resolve type %s", types.ExprString(x.Args[1]))
+		}
+		switch tv.Type.Underlying().(type) {
+		case *types.Pointer, *types.Chan, *types.Map:
+		default:
+			ec.fail("as: only pointer, channel and map types")
+		}
+		return Value{C: []Term{v.C[1]}}, tv.Type
 	case "typeof":
 		v, t := arg(0)
 		if _, ok := t.Underlying().(*types.Interface); !ok {
@@ -1291,6 +1308,18 @@ func (ec *evalCtx) evalCall(x *ast.CallExpr) (Value, types.Type) {
 			}
 		}
 		ec.fail("rangeiter(): the loop is not a range loop")
+	case "rangeidx":
+		// number of completed iterations of the slice/array/string range loop we are in (the hidden
+		// index of `for _, x := range s`)
+		if ec.fr == nil || ec.fr.curLoop == nil {
+			ec.fail("rangeidx() outside a loop")
+		}
+		for _, in := range ec.fr.curLoop.header.Instrs {
+			if phi, ok := in.(*ssa.Phi); ok && phi.Comment == "rangeindex" {
+				return Value{C: []Term{iAdd(ec.fr.val(phi).C[0], "1")}}, tUntypedInt
+			}
+		}
+		ec.fail("rangeidx(): the loop is not a range loop over a slice")
 	case "haskey":
 		// haskey(m, k): map m has an entry for key k
 		v, t := arg(0)
